@@ -71,7 +71,11 @@ func c01GenCase(r *vc.Rand, idx int, kinds []string, prefix string) *atCase {
 			case 7:
 				grp.Stmts = append(grp.Stmts, atGenMulti(r, t, "delete"))
 			case 0, 1:
-				grp.Stmts = append(grp.Stmts, atGenUpdate(r, t, o))
+				if st, ok := atGenNearUpdate(r, t); ok && r.Intn(4) == 0 {
+					grp.Stmts = append(grp.Stmts, st)
+				} else {
+					grp.Stmts = append(grp.Stmts, atGenUpdate(r, t, o))
+				}
 			case 2:
 				grp.Stmts = append(grp.Stmts, atGenDelete(r, t, o))
 			case 3:
